@@ -2,6 +2,7 @@ SPECIFICATION Spec
 CONSTANTS
   Users = {"u1", "u2"}
   Flags = {"R", "F", "T"}
+  FlagSets = {{"R"}, {"F"}, {"T"}, {"R", "F"}, {"R", "T"}, {"F", "T"}, {"R", "F", "T"}}
   MaxCalls = 8
   MaxFaults = 3
   MaxCloses = 1
